@@ -370,6 +370,10 @@ func c17Scenarios(cfg runCfg) []Scenario {
 				fam = "version"
 			case 3:
 				fam = "explicit-history"
+			case 4:
+				if i%3 == 0 {
+					fam = "usable-among-others"
+				}
 			}
 			out = append(out, Scenario{Family: fam, Seed: mix(cfg.seed, 17, uint64(i)), K: 1 + i%6})
 		}
@@ -613,6 +617,52 @@ func c17Run(t *testing.T, sc Scenario, res *Result) {
 		}
 		if logs != len(planted) {
 			res.violate(sc, "c17/other-version-log", fmt.Sprintf("%d other-version files but %d 'ignoring fail file' log lines", len(planted), logs), map[string]any{"versions": planted, "with_files": with.tb.brief()})
+		}
+		return
+	}
+	if sc.Family == "usable-among-others" {
+		// the directory holds ONE usable, still failing fail file and other files around it: that file's test case is
+		// what Check must report ("failed after 0 tests", its draws, its message) whatever else is lying there
+		os.RemoveAll("testdata")
+		dir := failDir(name)
+		os.MkdirAll(dir, 0o775)
+		fname := func(ts string) string { return filepath.Join(dir, fmt.Sprintf("%s-%s-77.fail", sanitize(name), ts)) }
+		lines := strings.Split(string(valid), "\n")
+		hdr := 0
+		for i, l := range lines {
+			if !strings.HasPrefix(l, "#") && strings.TrimSpace(l) != "" {
+				hdr = i
+				break
+			}
+		}
+		variant := []string{"same-words-other-version-first", "passing-file-after", "extra-words", "garbage-after"}[int(mix(sc.Seed, 0x17a)%4)]
+		usable := fname("20260101000000")
+		content := valid
+		switch variant {
+		case "same-words-other-version-first":
+			ol := append([]string(nil), lines...)
+			ol[hdr] = "v0.0.1" + ol[hdr][strings.Index(ol[hdr], "#"):]
+			os.WriteFile(fname("20250101000000"), []byte(strings.Join(ol, "\n")), 0o644)
+		case "passing-file-after":
+			writeFailFile(name, "20270101000000-78", rapidVersion(), 1, []uint64{0, 0, 0, 0, 0, 0}, "passes")
+		case "extra-words":
+			content = []byte(strings.TrimRight(string(valid), "\n") + "\n0x5\n0x6\n")
+		case "garbage-after":
+			os.WriteFile(fname("20270101000000"), []byte("garbage"), 0o644)
+		}
+		os.WriteFile(usable, content, 0o644)
+		run := runBody(body(thrLow), runOpts{name: name, flags: fl})
+		res.inc("directories")
+		res.inc("usable_among_others:" + variant)
+		res.nontrivial("usable-among-others/" + variant + fmt.Sprint(thrLow))
+		detail := map[string]any{"variant": variant, "usable_file": usable, "tb": run.tb.brief(), "original_report": clip(gen.rp.Raw, 200)}
+		if (run.rp.Kind != "failed" && run.rp.Kind != "panic") || run.rp.N != 0 || run.rp.FailFile != usable || run.rp.M != gen.rp.M {
+			res.violate(sc, "c17/usable-not-used", fmt.Sprintf("a usable, still failing fail file (%s) was not what Check reported: %s", variant, clip(run.rp.Raw, 300)), detail)
+			return
+		}
+		v := judgeReality(run, true)
+		for _, pr := range v.problems {
+			res.violate(sc, "c17/usable/"+firstWords(pr, 5), "usable fail file among others ("+variant+"): "+pr, detail)
 		}
 		return
 	}
